@@ -30,7 +30,7 @@ let op_write args = match args with
   | [layer; len; seed; sched] ->
     let len = int_of_string len and seed = int_of_string seed in
     let payload = List.init len (fun i -> n_of_int ((i * 7 + seed) mod 256)) in
-    let wr = if layer = "tpkt" then tpkt_write else x224_write in
+    let wr = if layer = "link" then link_write else if layer = "tpkt" then tpkt_write else x224_write in
     let ((out, r), _) = wr payload (parse_sched sched) in
     let res = match r with Ok _ -> "ok" | Err e -> "err:" ^ err_name e | Panic -> "panic" | Spin -> "spin" in
     Printf.sprintf "%s wrote=%s" res (summ out)
